@@ -26,13 +26,15 @@ def pick_scheme(rng):
         h = rng.choice([224, 256, 384, 512])
         w = 64 if h > 256 else 32
         return s, {"B": 1024 if h > 256 else 512, "w": w, "hsize": h}, {"kind": "pad", "scheme": s, "size": h}
-    Bb = rng.choice([8, 16, 24, 32, 64, 64, 128, 128, 256, 512, 1024])
+    Bb = rng.choice([8, 16, 24, 32, 40, 64, 64, 72, 128, 128, 256, 512, 1024, 2048])
+    if Bb > 1024 and s in ("pkcs7", "X923"):
+        Bb = 1024            # the pad byte cannot express more than 255
     return s, {"B": Bb}, {"kind": "pad", "scheme": s, "l": Bb}
 
 
 def final_len_classes(scheme, prm):
     nB = prm["B"] // 8
-    c = [0, 1, nB - 1, nB, nB + 1, 2 * nB, 2 * nB + 3, 3 * nB - 1]
+    c = [0, 1, nB - 1, nB, nB + 1, 2 * nB, 2 * nB + 3, 3 * nB - 1, 5 * nB, 6 * nB + 1, 9 * nB - 1]
     if "w" in prm:
         cs = prm["w"] // 4
         extra = 1
@@ -97,7 +99,7 @@ class C09(Machine):
         prior = 0
         abandon_at = rng.randrange(k + 1) if abandon else None
         for ci in range(k):
-            piece = rbytes(rng, nB * rng.choice([0, 1, 1, 2, 3]))
+            piece = rbytes(rng, nB * rng.choice([0, 1, 1, 2, 3, 3, 6]))
             blocks, _ = continuation_layout(prm, prior, piece)
             n = len(blocks)
             if abandon_at == ci and n > 0:
